@@ -226,6 +226,10 @@ type c03Shape struct{ name string }
 
 var c03Shapes = []string{"absent", "system-value", "aliasing-element", "empty+spare", "items+spare", "items-exact"}
 
+// shapes of %c only: items of one kind in no particular order (what an in-place sort would show), and collections that
+// hold collections (what an in-place flattening would show)
+var c03ShapesC = append(append([]string{}, c03Shapes...), "integers-unsorted", "strings-unsorted", "nested-collections+spare", "nested-empty-and-singleton")
+
 func init() {
 	progs := c03Programs()
 	suffixes := []string{"", ".first()", ".last()", ".where($this.exists())", ".select($this)", ".toString()", ".distinct()", ".count()", ".tail()", ".take(1)", ".skip(1)", ".exists()", ".empty()", ".toDate()", ".toDateTime()"}
@@ -250,10 +254,10 @@ func init() {
 				{"Questionnaire+Patient", func() []fhir.Resource { return []fhir.Resource{lib.Questionnaire(), lib.Patient()} }},
 			}
 			return []core.Sub{
-				{Name: "programs", N: len(progs), Note: fmt.Sprintf("%d programs x %d inputs x %d environment shapes", len(progs), len(inputs), len(c03Shapes)*len(c03Shapes)), Run: func(i int, r *core.Rec) {
+				{Name: "programs", N: len(progs), Note: fmt.Sprintf("%d programs x %d inputs x %d environment shapes", len(progs), len(inputs), len(c03ShapesC)*len(c03Shapes)), Run: func(i int, r *core.Rec) {
 					src := progs[i]
 					for _, inp := range inputs {
-						for _, shc := range c03Shapes {
+						for _, shc := range c03ShapesC {
 							for _, shd := range c03Shapes {
 								if !strings.Contains(src, "%d") && shd != "absent" {
 									continue
@@ -291,6 +295,25 @@ func init() {
 										}
 										s := c03MkSlice(name, []any{system.Integer(1), system.String("Ann"), alias}, spare)
 										slices = append(slices, s)
+										env[name] = s.coll
+									case "integers-unsorted":
+										s := c03MkSlice(name, []any{system.Integer(3), system.Integer(1), system.Integer(2), system.Integer(1)}, 2)
+										slices = append(slices, s)
+										env[name] = s.coll
+									case "strings-unsorted":
+										s := c03MkSlice(name, []any{system.String("Zoe"), system.String("Maria"), system.String("Adam")}, 0)
+										slices = append(slices, s)
+										env[name] = s.coll
+									case "nested-collections+spare":
+										inner := c03MkSlice(name+".inner", []any{system.String("b"), system.String("c")}, 3)
+										s := c03MkSlice(name, []any{system.String("a"), inner.coll, system.String("d")}, 5)
+										slices = append(slices, inner, s)
+										env[name] = s.coll
+									case "nested-empty-and-singleton":
+										empty := c03MkSlice(name+".empty", nil, 2)
+										one := c03MkSlice(name+".one", []any{system.Integer(7)}, 3)
+										s := c03MkSlice(name, []any{system.String("a"), empty.coll, system.String("b"), one.coll, system.String("c")}, 0)
+										slices = append(slices, empty, one, s)
 										env[name] = s.coll
 									}
 								}
